@@ -140,6 +140,27 @@ def gen_lzma_streams(rng, count, big_every=0, end_styles=('marker', 'sized', 'si
         res.append(meta)
     return res
 
+def gen_wrap_streams(rng, count, end_styles=('marker', 'sized')):
+    """streams (same dict format as gen_lzma_streams) whose output crosses the 4096-byte window with a LITERAL exactly at a window
+    multiple, preceded by a match ending exactly on the boundary - the wrap-point cases, guaranteed rather than left to chance"""
+    reqs, metas = [], []
+    for k in range(count):
+        lc, lp, pb = rand_props(rng)
+        laps = 1 + (k % 2)
+        pbld = random_program(rng, 4000, 4096, lit_bias=1, until=4096 * laps - 600)
+        exact_size_syms(pbld, 4096 * laps - pbld.n)
+        pbld.lit(rng.below(256))
+        for _ in range(rng.range(3, 40)): pbld.random_sym(rng, rng.choice([1, 3]))
+        style = rng.choice(list(end_styles))
+        reqs.append('ref_lzma lc=%d lp=%d pb=%d dict=%d size=%s delta=0 prog=%s' % (lc, lp, pb, rng.choice([0, 4096]), 'none' if style == 'marker' else str(pbld.n), pbld.text(style != 'sized')))
+        metas.append({'props': (lc, lp, pb), 'dict': 4096, 'style': style, 'n': pbld.n, 'kinds': dict(pbld.kinds), 'big': True, 'nsyms': len(pbld.syms), 'wrap_literal': True})
+    res = []
+    for enc, meta in zip(ref_encode(reqs), metas):
+        if enc is None: raise InfraError('reference encoder rejected a wrap-point program')
+        meta = dict(meta); meta['bytes'], meta['out'] = enc; meta['ref'] = 'wrap-point literal stream'
+        res.append(meta)
+    return res
+
 def lzma_oracle_exact(c):
     """C01-style oracle: the implementation must succeed and deliver exactly the format-defined bytes"""
     exp = c['meta_full']['out']
@@ -177,7 +198,7 @@ def sweep_program(rng, window):
 def run_C01(ck):
     rng = Rng(ck.seed).fork('C01')
     n = 400 if ck.tier == 'quick' else 4000
-    streams = gen_lzma_streams(rng, n, big_every=12 if ck.tier == 'quick' else 8)
+    streams = gen_lzma_streams(rng, n, big_every=12 if ck.tier == 'quick' else 8) + gen_wrap_streams(rng, 4 if ck.tier == 'quick' else 30, ('marker', 'sized', 'sized+marker'))
     cases = []
     for s in streams:
         b = s['bytes']
@@ -844,7 +865,7 @@ def lzma_variants(rng, s):
 def run_C05(ck):
     rng = Rng(ck.seed).fork('C05')
     quick = ck.tier == 'quick'
-    streams = gen_lzma_streams(rng, 50 if quick else 400, big_every=25, max_syms=40)
+    streams = gen_lzma_streams(rng, 50 if quick else 400, big_every=25, max_syms=40) + gen_wrap_streams(rng, 2 if quick else 10, ('marker', 'sized', 'sized+marker'))
     cases = []
     for s in streams:
         for kind, data, opt in lzma_variants(rng, s):
@@ -1111,7 +1132,7 @@ def run_C09(ck):
 def run_C10(ck):
     rng = Rng(ck.seed).fork('C10')
     quick = ck.tier == 'quick'
-    streams = gen_lzma_streams(rng, 60 if quick else 400, big_every=4, end_styles=('marker', 'sized'), max_syms=50)
+    streams = gen_lzma_streams(rng, 60 if quick else 400, big_every=4, end_styles=('marker', 'sized'), max_syms=50) + gen_wrap_streams(rng, 2 if quick else 10)
     cases = []
     for s in streams:
         dict_eff = max(s['dict'], 4096)
@@ -1255,7 +1276,7 @@ def run_C12(ck):
     rng = Rng(ck.seed).fork('C12')
     quick = ck.tier == 'quick'
     bases = []
-    lz = gen_lzma_streams(rng, 6 if quick else 30, big_every=3, max_syms=30)
+    lz = gen_lzma_streams(rng, 6 if quick else 30, big_every=3, max_syms=30) + gen_wrap_streams(rng, 1 if quick else 4, ('marker', 'sized', 'sized+marker'))
     l2 = gen_lzma2_streams(rng, 5 if quick else 25)
     xzs = gen_xz_files(rng, 5 if quick else 25, [p for p in l2 if len(p['bytes']) < 3000] or l2)
     for s in lz: bases.append(('lzma_dec opt=rfh in=%s' % hx(s['bytes']), 'lzma_dec', s['out']))
@@ -1361,7 +1382,7 @@ def run_C13(ck):
     rng = Rng(ck.seed).fork('C13')
     quick = ck.tier == 'quick'
     inputs = []
-    for s in gen_lzma_streams(rng, 25 if quick else 200, big_every=9, max_syms=40):
+    for s in gen_lzma_streams(rng, 25 if quick else 200, big_every=9, max_syms=40) + gen_wrap_streams(rng, 2 if quick else 10, ('marker', 'sized', 'sized+marker')):
         for kind, data, opt in lzma_variants(rng, s):
             inputs.append(('lzma_dec opt=%s in=%s' % (opt, hx(data + (rng.bytes(5) if kind == 'valid' and s['style'] == 'sized' else b''))), kind))
     pool = gen_lzma2_streams(rng, 25 if quick else 150)
@@ -1552,7 +1573,7 @@ def run_C15(ck):
     rng = Rng(ck.seed).fork('C15')
     quick = ck.tier == 'quick'
     cases = []
-    for s in gen_lzma_streams(rng, 30 if quick else 250, big_every=10, end_styles=('marker', 'sized'), max_syms=60):
+    for s in gen_lzma_streams(rng, 30 if quick else 250, big_every=10, end_styles=('marker', 'sized'), max_syms=60) + gen_wrap_streams(rng, 2 if quick else 12):
         b = s['bytes']
         size = 'none' if s['style'] == 'marker' else str(s['n'])
         opt, hdr = rng.choice([('rfh', 13), ('rfh', 13), ('rhp:' + size, 13), ('up:' + size, 5), ('up:' + size, 5)])
